@@ -404,6 +404,15 @@ pub fn finish(ctx: &Ctx, mut rep: Report) -> i32 {
                 ("status", "known-finding".into()),
                 ("cases", (*count).into()),
             ]));
+        } else if sig.starts_with("machinery|") || sig.starts_with("harness|") {
+            // a case the harness could not judge (its generated input did not reach the code under test, its own model
+            // disagreed with itself): outside the property, never a verdict; visible here and in the evidence
+            println!("UNJUDGED: property={} {} ({} cases; e.g. {})", ctx.prop, sig, count, one_line(&viol.detail, 200));
+            viol_list.push(obj(vec![
+                ("signature", sig.as_str().into()),
+                ("status", "unjudged".into()),
+                ("cases", (*count).into()),
+            ]));
         } else {
             unknown += 1;
             n += 1;
@@ -522,11 +531,17 @@ pub fn thread_cpu_s() -> f64 {
 
 /// Verdict for `--replay`: prints the violations of the replayed case; never rewrites evidence.
 pub fn finish_replay(ctx: &Ctx, acc: &Acc) -> i32 {
+    let mut real = 0;
     for (sig, (_, _, v)) in &acc.viol {
+        if sig.starts_with("machinery|") || sig.starts_with("harness|") {
+            println!("UNJUDGED: property={} {} ({})", ctx.prop, sig, one_line(&v.detail, 300));
+            continue;
+        }
+        real += 1;
         println!("VIOLATION property={} replay=(replayed) signature={}", ctx.prop, sig);
         println!("  detail: {}", one_line(&v.detail, 600));
     }
-    if acc.viol.is_empty() {
+    if real == 0 {
         println!("replay: property held on this case");
         0
     } else {
